@@ -203,6 +203,18 @@ func judgeC15Base(b *built, in []byte) (ref []byte, sig, what string) {
 	if string(o2) != o1 {
 		return nil, "bytes-vs-string", fmt.Sprintf("SanitizeBytes=%s differs from Sanitize=%s", run.Q(string(o2)), run.Q(o1))
 	}
+	// a result already handed out stays what it was when the policy goes on to sanitise something else (checked
+	// here, right after SanitizeBytes, and again below after SanitizeReader)
+	other := "<i>another</i> document: " + s[len(s)/2:] + s[:len(s)/2] + " <b>end</b>"
+	func() {
+		defer func() { recover() }()
+		b.P.SanitizeBytes([]byte(other))
+		b.P.Sanitize(other)
+	}()
+	if string(o2) != o1 {
+		return nil, "result-overwritten|bytes", fmt.Sprintf("the slice SanitizeBytes returned for %s read %s at first and %s after the policy sanitised another document", run.Q(s), run.Q(o1), run.Q(string(o2)))
+	}
+	// (after the first retained-result guard: a buffer this call takes over must not hide that the slice above is shared)
 	// a reader that has already been read from (and can seek): only what is left in it is sanitised
 	func() {
 		defer func() { recover() }()
@@ -215,17 +227,6 @@ func judgeC15Base(b *built, in []byte) (ref []byte, sig, what string) {
 	}()
 	if sig != "" {
 		return nil, sig, what
-	}
-	// a result already handed out stays what it was when the policy goes on to sanitise something else (checked
-	// here, right after SanitizeBytes, and again below after SanitizeReader)
-	other := "<i>another</i> document: " + s[len(s)/2:] + s[:len(s)/2] + " <b>end</b>"
-	func() {
-		defer func() { recover() }()
-		b.P.SanitizeBytes([]byte(other))
-		b.P.Sanitize(other)
-	}()
-	if string(o2) != o1 {
-		return nil, "result-overwritten|bytes", fmt.Sprintf("the slice SanitizeBytes returned for %s read %s at first and %s after the policy sanitised another document", run.Q(s), run.Q(o1), run.Q(string(o2)))
 	}
 	var o3 *bytes.Buffer
 	func() {
